@@ -330,7 +330,10 @@ def _extract_attributes(element):
     for subel in element:
         sqname = etree.QName(subel)
         _t = xml_qname_to_QualifiedName(
-            subel, "%s:%s" % (subel.prefix, sqname.localname)
+            subel,
+            "%s:%s" % (subel.prefix, sqname.localname)
+            if subel.prefix
+            else sqname.localname,
         )
 
         for key, value in subel.attrib.items():
